@@ -40,7 +40,7 @@ ANCHORS = [
 REQUIRED = ["invocations_judged", "runs_judged", "feasibility_judged", "binding_invocations", "acceptance_judged", "bounds_judged",
             "estimator_bound_binding", "estimator_bound_sid_differs_from_station", "amp_periods_binding", "inactive_station_zero_checked",
             "algo:greedy", "algo:rr", "sort:fcfs", "sort:lcfs", "sort:edf", "sort:llf", "sort:lrpt", "est:None", "est:rampdown", "est:fixed",
-            "unint:on", "unint:off", "evse:EVSE", "evse:FR", "mixed_sign_network", "invocations_after_an_edit", "runs_with_a_reused_algorithm_object", "runs_on_predefined_sites", "runs_with_a_user_subclass_overriding_run_preprocessing"]
+            "unint:on", "unint:off", "evse:EVSE", "evse:FR", "mixed_sign_network", "invocations_after_an_edit", "runs_with_a_reused_algorithm_object", "runs_on_predefined_sites", "runs_with_a_user_subclass_overriding_run_preprocessing", "runs_resumed_after_a_transient_failure_inside_the_algorithm", "runs_with_an_algorithm_object_whose_previous_study_was_abandoned_mid_call"]
 BUDGET_S = {"quick": 270, "thorough": 3300}
 
 
@@ -77,6 +77,16 @@ def _corpus(rng):
                                     "scheduler": {"kind": "sorted", "algo": algo, "sort": sort, "est": rng.choice([None, None, "fixed"]),
                                                   "unint": True, "inc": rng.choice([0.5, 1]), "seed": rng.randrange(1 << 20)},
                                     "np_seed": 1})
+    # a feeder filled to the last ampere by two cars, a third car whose whole remaining demand is a few thousandths of an
+    # ampere-period (still "unsatisfied": more than 1e-3 kWh) - hour-long and day-long periods make that common
+    for per_, V_, req3 in ((60, 208, 0.0015), (60, 240, 0.0019), (1440, 208, 0.03), (60, 277, 0.0021), (1440, 240, 0.05)):
+        for sort in ("fcfs", "edf", "llf"):
+            stations = [{"id": f"s{i}", "evse": {"t": "EVSE", "max": 32, "min": 0}, "voltage": V_, "phase": 0} for i in range(3)]
+            net = {"stations": stations, "constraints": [{"name": "feeder", "coeffs": {s_["id"]: 1 for s_ in stations}, "limit": 64}], "tol": None}
+            sessions = [{"id": f"x{k}", "station": f"s{k}", "arrival": k, "departure": 6 + k, "requested": [500, 500, req3][k], "est_dep": 6 + k,
+                         "battery": {"t": "ideal", "cap": 1000, "init": 0, "maxp": 500}} for k in range(3)]
+            out.append({"period": per_, "start": [2020, 3, 1, 8, 0], "network": net, "sessions": sessions, "recompute": [],
+                        "scheduler": {"kind": "sorted", "algo": "greedy", "sort": sort, "est": None, "unint": False, "inc": 0.5, "seed": 1}, "np_seed": 1})
     res = [{"desc": d, "corpus": True} for d in out]
     # an algorithm + estimator object that has just served another study in which the SAME session ids sat on larger stations:
     # whatever it remembers about them must not exceed what today's station takes
@@ -115,8 +125,14 @@ def cases(seed, tier):
             # a user subclass overriding the documented run_preprocessing hook (EVSE limits only): still a sorting-based algorithm
             d["scheduler"].update(user_pre=True, est=None, unint=False)
         c = {"desc": d}
+        if rng.random() < 0.15:
+            c["transient_post"] = rng.choice([2, 3, 4, 6])
         if rng.random() < 0.12:
             c["warm"] = gen.scenario(rng, sched=dict(d["scheduler"]), kinds=("EVSE", "FR"), nmax=5, sess_max=6, constraint_free_p=0.1)
+            if rng.random() < 0.5:
+                # (same number of stations as today's network: a work array sized by the network would be taken over as it is)
+                c["warm"] = gen.scenario(rng, sched=dict(d["scheduler"]), kinds=("EVSE", "FR"), nmax=len(d["network"]["stations"]), sess_max=8, constraint_free_p=0.3)
+                c["warm_abandoned_at"] = rng.choice([1, 2, 3, 5])
         out.append(c)
     # the predefined sites (real three-phase wiring, 54 / 52 / 8 stations), many sessions competing behind the transformers
     for i in range(12 if tier == "quick" else 400):
@@ -148,12 +164,29 @@ def run_case(case, obs):
         import warnings as _w
         algo0 = build.build_scheduler(d)
         sim0, _ = build.build_sim(warm, scheduler=algo0)
+        abandon_at = case.get("warm_abandoned_at")
+        if abandon_at is not None:
+            # ... and that other study was ABANDONED half-way: the user's post-processing step raised at its k-th call and the
+            # simulation was never resumed; today's study starts with whatever the algorithm object kept from the failed call
+            orig_post0 = algo0.run_postprocessing
+            st0_ = {"n": 0}
+
+            def failing_post(*a_, **k_):
+                st0_["n"] += 1
+                if st0_["n"] == abandon_at:
+                    raise RuntimeError("failure in the user's post-processing step; study abandoned")
+                return orig_post0(*a_, **k_)
+
+            algo0.run_postprocessing = failing_post
         with _w.catch_warnings():
             _w.simplefilter("ignore")
             try:
                 sim0.run()
             except Exception:
-                pass
+                if abandon_at is not None:
+                    obs.ev("runs_with_an_algorithm_object_whose_previous_study_was_abandoned_mid_call")
+        if abandon_at is not None:
+            del algo0.run_postprocessing
         sim, evs = build.build_sim(d, scheduler=algo0)
         obs.ev("runs_with_a_reused_algorithm_object")
     else:
@@ -189,10 +222,27 @@ def run_case(case, obs):
     ed = simrun.install_edits(sim, d.get("edits"))
     if d.get("edits"):
         obs.ev("runs_with_mid_run_constraint_edits")
+    tp_ = case.get("transient_post")
+    if tp_ is not None and hasattr(algo, "run_postprocessing"):
+        # the user's post-processing step fails once (a full disk while logging the plan): the caller catches the exception and
+        # calls run() again; every later plan of the same algorithm object is judged like any other
+        orig_post = algo.run_postprocessing
+        st_ = {"n": 0}
+
+        def flaky_post(*a_, **k_):
+            st_["n"] += 1
+            if st_["n"] == tp_:
+                raise RuntimeError("transient failure in the user's post-processing step")
+            return orig_post(*a_, **k_)
+
+        algo.run_postprocessing = flaky_post
     probe = SimProbe(sim, snapshots=False)
     probe.step_limit = simrun.last_event_ts(d) + 4
     probe.attach()
     probe.run()
+    if tp_ is not None and isinstance(probe.exception, RuntimeError) and "transient failure" in str(probe.exception):
+        obs.ev("runs_resumed_after_a_transient_failure_inside_the_algorithm")
+        probe.run()
     probe.detach()
     for w in reversed(wraps):
         w.remove()
